@@ -271,6 +271,7 @@ type expectation struct {
 	Allow    []string          // sorted upper-case methods under which some template fits
 	NFitsOwn int               // templates fitting under the request's method
 	NFitsAny int               // templates fitting under any method
+	MaxPerM  int               // largest number of templates fitting under one and the same method
 }
 
 type parsedAPI struct {
@@ -304,6 +305,7 @@ func expect(c Case, api parsedAPI, method, escaped string) expectation {
 	}
 	um := strings.ToUpper(method)
 	allow := map[string]bool{}
+	perMethod := map[string]int{}
 	var own []int
 	ownVals := map[int]map[string]string{}
 	for i, t := range c.Tmpls {
@@ -322,6 +324,10 @@ func expect(c Case, api parsedAPI, method, escaped string) expectation {
 				isOwn = true
 			}
 			allow[strings.ToUpper(m)] = true
+			perMethod[strings.ToUpper(m)]++
+			if perMethod[strings.ToUpper(m)] > e.MaxPerM {
+				e.MaxPerM = perMethod[strings.ToUpper(m)]
+			}
 		}
 		if isOwn {
 			own = append(own, i)
